@@ -11,7 +11,7 @@ Theorem C09_send_seq_gapfree :
   forall (A : Type) (H : bytes -> bytes) (has_route : bytes -> bool)
          (on_recv : A -> packet -> option (A * option bytes))
          (on_ack : A -> packet -> bytes -> option A)
-         (ops : list op) (c : chain A) (s d : bytes),
+         (ops : list (op A)) (c : chain A) (s d : bytes),
     Forall op_wf ops -> noslash s -> noslash d ->
     next_send A c s d + N.of_nat (length (own_sends A H has_route on_recv on_ack s d c ops)) < two64 ->
     own_sends A H has_route on_recv on_ack s d c ops =
@@ -48,7 +48,7 @@ Theorem C09_counter_moves_only_by_send :
   forall (A : Type) (H : bytes -> bytes) (has_route : bytes -> bool)
          (on_recv : A -> packet -> option (A * option bytes))
          (on_ack : A -> packet -> bytes -> option A)
-         (c : chain A) (o : op) (c' : chain A) (ev : list event) (s d : bytes),
+         (c : chain A) (o : op A) (c' : chain A) (ev : list event) (s d : bytes),
     exec A H has_route on_recv on_ack c o = Some (c', ev) ->
     (forall p, o = OSend p -> next_send_key (p_src p) (p_dst p) <> next_send_key s d) ->
     next_send A c' s d = next_send A c s d.
@@ -60,7 +60,7 @@ Print Assumptions C09_counter_moves_only_by_send.
 Theorem C09_fail_unchanged :
   forall (A : Type) (H : bytes -> bytes) (has_route : bytes -> bool)
          (on_recv : A -> packet -> option (A * option bytes))
-         (on_ack : A -> packet -> bytes -> option A) (c : chain A) (o : op),
+         (on_ack : A -> packet -> bytes -> option A) (c : chain A) (o : op A),
     exec A H has_route on_recv on_ack c o = None ->
     step A H has_route on_recv on_ack c o = (c, None).
 Proof. intros A H hr orc oa c o E. unfold step. rewrite E. reflexivity. Qed.
